@@ -136,6 +136,21 @@ writes beyond the end are dropped (the model never produces any: theorem) -/
 def applyWrites (out : List α) (ws : List (Nat × α)) : List α :=
   ws.foldl (fun o w => o.set w.1 w.2) out
 
+/-! compiled-code replacement for `applyWrites` (proved equal; used only by the compiler) -/
+def applyWritesFast {α : Type} (out : List α) (ws : List (Nat × α)) : List α :=
+  (ws.foldl (fun (o : Array α) w => o.setIfInBounds w.1 w.2) out.toArray).toList
+
+theorem applyWritesFast_go {α : Type} (ws : List (Nat × α)) (o : Array α) :
+    (ws.foldl (fun (o : Array α) w => o.setIfInBounds w.1 w.2) o).toList
+      = ws.foldl (fun o w => o.set w.1 w.2) o.toList := by
+  induction ws generalizing o with
+  | nil => rfl
+  | cons w ws ih => simp [List.foldl_cons, ih]
+
+@[csimp] theorem applyWrites_eq_fast : @applyWrites = @applyWritesFast := by
+  funext α out ws
+  simp [applyWrites, applyWritesFast, applyWritesFast_go]
+
 /-- `manifold::copy_if(Par, …)`: the parallel pass writes into `out`, its return value is
 discarded (it is returned from the `isolate` lambda only), and the function falls through to
 the sequential `std::copy_if`, whose result is what the caller gets.  Returned: the output
@@ -292,9 +307,15 @@ def shufflePass (k : Nat) (xs : List Nat) : List Nat :=
 def canSkip (k : Nat) (xs : List Nat) : Bool :=
   (List.range 256).any fun b => (xs.filter fun x => byteOf k x == b).length == xs.length
 
+/-- `std::is_sorted`: adjacent comparisons -/
+def isSortedAdj : List Nat → Bool
+  | [] => true
+  | [_] => true
+  | x :: y :: rest => decide (x ≤ y) && isSortedAdj (y :: rest)
+
 /-- `LSB_radix_sort` over `nb` bytes: early-out when sorted, skip constant bytes -/
 def lsbRadix (nb : Nat) (xs : List Nat) : List Nat :=
-  if xs.Pairwise (· ≤ ·) then xs
+  if isSortedAdj xs then xs
   else (List.range nb).foldl (fun a k => if canSkip k xs then a else shufflePass k a) xs
 
 /-- `SortedRange::join`: adjacent sorted ranges; merge only if out of order at the seam -/
@@ -312,3 +333,4 @@ def parRadixSort (T nb : Nat) (t : Sched) (xs : List Nat) : List Nat :=
         (sortedJoin T) [] t [] xs
 
 end MV.Par
+
